@@ -25,7 +25,7 @@ type Entry struct {
 }
 
 type Op struct {
-	Kind  int   `json:"k"`           // 0 add, 1 burn (Load/Name/Type calls), 2 force roll-up, 3 age (export, shift into the past, re-import), 4 reimport, 5 query, 6 file dump+load
+	Kind  int   `json:"k"`           // 7 = dump, N further increments of Delta, then the (by now older) dump is loaded again onto the live counter; 0 add, 1 burn (Load/Name/Type calls), 2 force roll-up, 3 age (export, shift into the past, re-import), 4 reimport, 5 query, 6 file dump+load
 	Delta int64 `json:"d,omitempty"` // add
 	N     int   `json:"n,omitempty"` // burn count
 	AgeMs int64 `json:"age,omitempty"`
@@ -70,7 +70,7 @@ func genCase(t *rapid.T) Case {
 	}
 	m := rapid.IntRange(1, 12).Draw(t, "nOps")
 	for i := 0; i < m; i++ {
-		op := Op{Kind: rapid.SampledFrom([]int{0, 0, 1, 2, 2, 3, 3, 3, 4, 5, 5, 0, 1, 2, 3, 5, 3, 2, 5, 6}).Draw(t, "kind")}
+		op := Op{Kind: rapid.SampledFrom([]int{0, 0, 1, 2, 2, 3, 3, 3, 4, 5, 5, 0, 1, 2, 3, 5, 3, 2, 5, 6, 7, 7}).Draw(t, "kind")}
 		switch op.Kind {
 		case 0:
 			op.Delta = rapid.Int64Range(0, 1<<40).Draw(t, "d")
@@ -78,6 +78,9 @@ func genCase(t *rapid.T) Case {
 			op.N = rapid.SampledFrom([]int{1, 7, 499, 999, 1000, 1001}).Draw(t, "n")
 		case 3:
 			op.AgeMs = rapid.SampledFrom([]int64{1500, 2500, 61000, 121000, 3600000, 7300000, 86400000, 9 * 86400000}).Draw(t, "shift")
+		case 7:
+			op.Delta = rapid.Int64Range(1, 1<<30).Draw(t, "dAfterDump")
+			op.N = rapid.IntRange(1, 3).Draw(t, "addsAfterDump")
 		case 5:
 			op.T1Ms = genAge(t, "t1")
 			op.T2Ms = genAge(t, "t2")
@@ -112,6 +115,9 @@ func prop(c Case) (o pbt.Outcome) {
 	}
 	ctr := m.(*metrics.Counter)
 	merged := false
+	// after an older dump was loaded onto a live counter the history is the
+	// dump's: it may sum to less than the total, never to more
+	staleHistory := false
 	rollups := 0
 	modelEntries := len(c.Initial)
 
@@ -156,7 +162,7 @@ func prop(c Case) (o pbt.Outcome) {
 				return false
 			}
 		}
-		if sum != total {
+		if sum != total && !(staleHistory && sum < total) {
 			o.Failf("total", "%s: history sums to %d, total is %d (%d entries)", step, sum, total, len(pbm.History))
 			return false
 		}
@@ -165,7 +171,7 @@ func prop(c Case) (o pbt.Outcome) {
 			return false
 		}
 		// the whole time line reports exactly the total
-		if d := ctr.DeltaBetween(time.Unix(0, 0), time.Now().Add(time.Hour)); d != total {
+		if d := ctr.DeltaBetween(time.Unix(0, 0), time.Now().Add(time.Hour)); d != total && !(staleHistory && d >= 0 && d < total) {
 			o.Failf("window", "%s: DeltaBetween(epoch, future) = %d, total %d", step, d, total)
 			return false
 		}
@@ -266,6 +272,46 @@ func prop(c Case) (o pbt.Outcome) {
 				return
 			}
 			ctr = reg
+		case 7:
+			// dump, more traffic, then the older dump is loaded again in the same
+			// process: totals never go backwards
+			caseSeq++
+			group := fmt.Sprintf("c19-%d-%d-%d", c.Tag, os.Getpid(), caseSeq)
+			reg := metrics.RegisterMetric(group, "bytes", metrics.COUNTER_TIME_SERIES).(*metrics.Counter)
+			dir, _ := os.MkdirTemp("", "c19-")
+			path := filepath.Join(dir, "metrics.pb")
+			all := &mpb.AllMetrics{Groups: []*mpb.MetricGroup{{Name: proto.String(group), Metrics: []*mpb.Metric{exportPB(ctr)}}}}
+			raw, _ := proto.Marshal(all)
+			os.WriteFile(path, raw, 0o600)
+			metrics.SetMetricsDumpFilePath(path)
+			err := metrics.LoadMetricsFromDump()
+			if err == nil && reg.Load() != total {
+				metrics.SetMetricsDumpFilePath("")
+				os.RemoveAll(dir)
+				o.Failf("dump", "%s: a dump of a counter holding %d, loaded into a fresh counter, gives %d", step, total, reg.Load())
+				return
+			}
+			for k := 0; k < op.N; k++ {
+				reg.Add(op.Delta)
+				total += op.Delta
+				modelEntries++
+			}
+			if err == nil {
+				err = metrics.LoadMetricsFromDump() // the same file again: by now it is older than the counter
+			}
+			metrics.SetMetricsDumpFilePath("")
+			os.RemoveAll(dir)
+			if err != nil {
+				o.Failf("dump", "%s: dump/load failed: %v", step, err)
+				return
+			}
+			if got := reg.Load(); got < total {
+				o.Failf("total-decreased", "%s: the counter held %d; loading a dump taken %d increments earlier (value %d) set it back to %d", step, total, op.N, total-int64(op.N)*op.Delta, got)
+				return
+			}
+			ctr = reg
+			staleHistory = true
+			modelEntries = 0
 		}
 		if !check(step) {
 			return
